@@ -317,6 +317,9 @@ def gen(rng: random.Random, h5rec: Dict[str, Any], stage: int, job: Dict[str, An
     if r < 0.30:
         a["op"] = "attach"
         a["p"] = rng.choice(nodes) if rng.random() < 0.92 else ["zz", "nope"]
+        deep = [n["p"] for n in tree if n["k"] == "d" and len(n["p"]) >= 2]
+        if deep and rng.random() < job.get("attach_deep_datasets", 0.0):
+            a["p"] = rng.choice(deep)    # metadata on datasets inside groups (moved / copied along with the group later)
         hot = [n for n in nodes if any(s_ in job.get("_hot", ()) for s_ in n)]
         if hot and rng.random() < 0.5:
             a["p"] = rng.choice(hot)     # nodes at or below a name that merely looks reserved
